@@ -156,6 +156,11 @@ func C16(c *core.Ctx) {
 			// close an account that never had a position, at the end
 			_, hi := journalSpan(j)
 			j.Dirs = append(j.Dirs, kj.Dir{K: "open", Z: 18200, A: "Expenses:Unused"}, kj.Dir{K: "close", Z: hi + 1, A: "Expenses:Unused"})
+			// an account that is opened, closed, opened again and then used
+			lo, _ := journalSpan(j)
+			j.Dirs = append(j.Dirs, kj.Dir{K: "open", Z: 18200, A: "Assets:Temp"}, kj.Dir{K: "close", Z: lo + 1, A: "Assets:Temp"},
+				kj.Dir{K: "open", Z: lo + 2, A: "Assets:Temp"},
+				kj.Dir{K: "trx", Z: hi, Desc: "after re-open", Bk: []kj.Booking{{Cr: "Equity:Equity", Dr: "Assets:Temp", C: "CHF", Q: 5}}})
 		}
 		v := "CHF"
 		for _, d := range j.Dirs {
